@@ -19,9 +19,11 @@ import (
 
 type openLoop struct {
 	variant []*Term
+	calls   map[string]int // calls executed on this path when the loop head was passed (for "loop K each F when E")
 }
 
 type State struct {
+	calls   map[string]int // number of calls per callee name executed on this path (top frame)
 	pc      []*Term
 	cells   map[int]*Val
 	heap    map[string]*Term
@@ -71,6 +73,12 @@ func (s *State) bumpTop() {
 
 func (s *State) clone() *State {
 	n := &State{epoch: s.epoch, top: s.top}
+	if s.calls != nil {
+		n.calls = make(map[string]int, len(s.calls))
+		for k, v := range s.calls {
+			n.calls[k] = v
+		}
+	}
 	n.pc = append([]*Term(nil), s.pc...)
 	n.cells = make(map[int]*Val, len(s.cells))
 	for k, v := range s.cells {
@@ -1003,6 +1011,11 @@ func (r *Run) enterLoopHeader(st *State, fr *Frame, h *ssa.BasicBlock, prev *ssa
 				v0 := ol.variant[i]
 				r.oblige(st, fmt.Sprintf("loop%d.decreases", k), c.Props, "", And(Ge(v0, IntLit(0)), Lt(now, v0)))
 			}
+			// "loop K each F when E": an iteration in which E holds (at its end) has called F
+			for _, c := range r.loopClauses(fr, k, "loopeach") {
+				called := st.calls[c.Text] > ol.calls[c.Text]
+				r.oblige(st, fmt.Sprintf("loop%d.each%d(%s)", k, c.Ord, c.Text), c.Props, "", Implies(env.evalBool(c.Expr), BoolLit(called)))
+			}
 		}
 		return false
 	}
@@ -1059,7 +1072,10 @@ func (r *Run) enterLoopHeader(st *State, fr *Frame, h *ssa.BasicBlock, prev *ssa
 	for _, c := range invs {
 		st.assume(env.evalBool(c.Expr))
 	}
-	ol := &openLoop{}
+	ol := &openLoop{calls: map[string]int{}}
+	for k2, v2 := range st.calls {
+		ol.calls[k2] = v2
+	}
 	for _, c := range decs {
 		ol.variant = append(ol.variant, env.evalInt(c.Expr))
 	}
